@@ -203,6 +203,22 @@ func normalize(root string, overlay map[string][]byte, baseline map[string]bool)
 					if !ok || baseline[funcKey(fn)] {
 						continue
 					}
+					// recover() only works when called directly by a deferred function: inlining a helper
+					// that calls it would change behaviour, so such helpers are left alone
+					usesRecover := false
+					ast.Inspect(fd.Body, func(n ast.Node) bool {
+						if call, ok := n.(*ast.CallExpr); ok {
+							if id, ok := call.Fun.(*ast.Ident); ok && id.Name == "recover" {
+								if _, isBuiltin := pk.TypesInfo.Uses[id].(*types.Builtin); isBuiltin {
+									usesRecover = true
+								}
+							}
+						}
+						return !usesRecover
+					})
+					if usesRecover {
+						continue
+					}
 					decls[fn] = fd
 					declFile[fn] = f
 				}
